@@ -60,6 +60,13 @@ def bases(tier):
                      ["-inf", -4.0, "-inf", "-inf", -3.0, "-inf"], ["inf", 5.0, "inf", 6.0, "inf", "inf"], [1.0, 1.0, 1.0, 0.0, -1.0, 0.5], f"ill_dense|{cond:g}")
         for ss in ("Standard", "Extended", "Asymmetric"):
             out.append((illd, {"step_solver": ss}, None))
+    # data in huge units (coefficients 1e6, variables 1e4 .. 1e9): diagnostics with absolute tolerances must not steer the solve
+    for uc, ux in ((1e6, 1e4), (1.0, 1e9), (1e-6, 1e-4)):
+        hu = G.raw(3, {"H": [[2.0 / ux, 0.0, 0.0], [0.0, 1.0 / ux, 0.0], [0.0, 0.0, 4.0 / ux]], "g": [-2.0, -1.0, -4.0]},
+                   [{"a": [uc, uc, uc], "b": 0.0, "lb": 2.0 * uc * ux, "ub": 2.0 * uc * ux}], [0.0, 0.0, 0.0], [3.0 * ux, 3.0 * ux, 3.0 * ux],
+                   [0.5 * ux, 0.5 * ux, 0.5 * ux], f"huge_units|{uc:g}|{ux:g}")
+        for ss in ("Symmetric", "Standard"):
+            out.append((hu, {"step_solver": ss}, None))
     # entropy-regularised quadratic (defined for x > 0 only), far start, large first steps
     for x0 in ([2.5, 3.0], [4.0, 0.5]):
         ent = G.raw(2, {"H": [[2.0, 1.5], [1.5, 2.0]], "g": [0.0, 0.0], "entropy": True}, [], ["-inf", "-inf"], ["inf", "inf"], x0, f"entropy|{x0}")
